@@ -91,7 +91,7 @@ def alph(seed: int) -> dict:
         bc_x_extra=[[0.01, 0.9, 1.1, 3, 50, 1e4], [0.05, 0.99, 1.01, 4, 20, 500], [0.3, 0.7, 1.5, 6, 30, 2000],
                     [0.02, 0.6, 1.2, 8, 90, 300]][k],
         bc_far_extra=[[0.1, 3, 5], [0.05, 2, 4], [0.2, 2.5, -3], [0.01, 0.9, 3.5]][k],
-        loc_extra=[[5.0, -0.1], [-20.0, 0.3], [1e3, -1e-3], [2.5, -40.0]][k],
+        loc_extra=[[5.0, -0.1], [-20.0, 0.3], [30.0, -1e-3], [2.5, -40.0]][k],
         scale_extra=[[0.1, 10.0], [0.05, 20.0], [0.3, 4.0], [0.2, 50.0]][k],
         labels=[[2, 4, 1, 3, 5], [3, 1, 4, 2, 5], [10, 20, 50, 30, 40], [5, 4, 3, 2, 1]][k],
     )
@@ -686,6 +686,9 @@ def check_dist(cfg, rec: Rec):
             integral_kind = None
     elif dist == 'lognormalpdf':
         mu, s = params
+        if mu + 12 * s > 700 or mu - 12 * s < -700:
+            rec.count('skipped_out_of_domain_lognormal_exp_overflow')  # the support grid itself leaves the doubles
+            return
         grid = [-1.0, 0.0, 1e-300] + [math.exp(mu + s * z) for z in (-8, -3, -1, 0, 0.5, 1, 3, 8)] + [1.0]
         ref = lambda x: ref_lognormalpdf(x, mu, s)  # noqa
         names = ('mu', 's')
